@@ -60,7 +60,7 @@ class C11(Prop):
                 'filled iff missing, route code prefixed - every other field unchanged, independent of siblings; StreamFailFast fires exactly for fail and uxsuccess; '
                 'no object of the caller is written (the heap only grows) and what a sink holds at the end is what it received. The hand-written model is tied to the '
                 'code by a differential check with receipt-time and end-of-run snapshots and object identities.',
-        'note': 'trusted: Lean kernel, the model TTV/Model/StreamDeco.lean (heap of tag sets), the harness; datetime.now modelled as the token `now`; a decorator's own field is always passed by keyword',
+        'note': 'trusted: Lean kernel, the model TTV/Model/StreamDeco.lean (heap of tag sets), the harness; datetime.now modelled as the token `now`; the field a decorator owns is always passed by keyword',
         'technique': 'Lean 4 structural induction over decorator trees (mutual recursion) with a heap-monotonicity invariant; executable path specification shared with a differential correspondence check',
     }
 
